@@ -251,6 +251,9 @@ func main() {
 			t.Start = int(clock.Add(1))
 			t.Res, t.Found, t.Out = exec(s, t.Op)
 			t.End = int(clock.Add(1))
+			logMu.Lock()
+			log = append(log, logged{t.Name, "done"})
+			logMu.Unlock()
 			events <- event{i, ""}
 		}(i, t)
 	}
